@@ -627,3 +627,25 @@ mut("C11", "r6-not-printer-splits", "database/query/condition-not.go",
     "\tkeyEnd := endOfFirstToken(next)\n\treturn next[:keyEnd] + \" not\" + next[keyEnd:]", "\tsplitted := strings.Split(next, \" \")\n\t_ = endOfFirstToken\n\treturn strings.Join(append([]string{splitted[0], \"not\"}, splitted[1:]...), \" \")", "C11-R6|database/query.(*notCond).string", comment="reverts fix 35c2a0b")
 mut("C11", "r6-not-printer-fields", "database/query/condition-not.go",
     "\tkeyEnd := endOfFirstToken(next)\n\treturn next[:keyEnd] + \" not\" + next[keyEnd:]", "\tsplitted := strings.Fields(next)\n\t_ = endOfFirstToken\n\treturn strings.Join(append([]string{splitted[0], \"not\"}, splitted[1:]...), \" \")", "C11-R6|database/query.(*notCond).string", comment="round-2 seed C11-b2 (rebased onto fix 35c2a0b)")
+mut("C12", "r6-shared-expiry", "api/authentication.go",
+    "\t// Parse new keys.\n\tfor _, key := range configuredAPIKeys() {", "\t// Parse new keys.\n\tvar validUntil time.Time\n\tfor _, key := range configuredAPIKeys() {", "C12-R6|api.updateAPIKeys / pointer stored to AuthToken.ValidUntil", comment="round-2 seed C12-b1",
+    extra=[{"file": "api/authentication.go", "old": "\t\t\tvalidUntil, err := time.Parse(time.RFC3339, expireStr)", "new": "\t\t\tvalidUntil, err = time.Parse(time.RFC3339, expireStr)"}])
+
+# ---- A9 lock pairing ------------------------------------------------------------
+mut("C13", "r6-marshalrecord-unlock-not-deferred", "api/database.go",
+    "\tr.Lock()\n\tdefer r.Unlock()\n\n\t// Pour record into JSON.", "\tr.Lock()\n\n\t// Pour record into JSON.", "C13-R6|api.MarshalRecord / r acquired", comment="round-2 seed C13-b2")
+mut("C04", "r7-setdefault-early-return-holds-lock", "config/set.go",
+    "\thandleOptionUpdate(option, push)\n\toption.Unlock()\n\n\tif err != nil {\n\t\treturn err\n\t}\n\n\t// finalize change, activate triggers\n\tsignalChanges()\n\n\t// Do not save",
+    "\thandleOptionUpdate(option, push)\n\n\tif err != nil {\n\t\treturn err\n\t}\n\toption.Unlock()\n\n\t// finalize change, activate triggers\n\tsignalChanges()\n\n\t// Do not save", "C04-R7|config.setDefaultConfigOption")
+mut("C05", "r7-injectevent-leaks-hooks-lock", "modules/events.go",
+    "\ttargetModule.eventHooksLock.RLock()\n\tdefer targetModule.eventHooksLock.RUnlock()", "\ttargetModule.eventHooksLock.RLock()", "C05-R7|modules.(*Module).InjectEvent")
+mut("C14", "r5-addsubscription-leaks-lock", "database/controller.go",
+    "\tc.subscriptionLock.Lock()\n\tdefer c.subscriptionLock.Unlock()\n\n\tc.subscriptions = append(c.subscriptions, sub)", "\tc.subscriptionLock.Lock()\n\n\tc.subscriptions = append(c.subscriptions, sub)", "C14-R5|database.(*Controller).addSubscription")
+mut("C19", "r6-addindex-leaks-lock", "updater/registry.go",
+    "\treg.Lock()\n\tdefer reg.Unlock()\n\n\t// Get channel name from path.", "\treg.Lock()\n\n\t// Get channel name from path.", "C19-R6|updater.(*ResourceRegistry).AddIndex")
+mut("C20", "r5-setpkglevels-leaks-lock", "log/logging.go",
+    "\tpkgLevels = levels\n\tpkgLevelsLock.Unlock()\n\tpkgLevelsActive.Set()", "\tpkgLevels = levels\n\tpkgLevelsActive.Set()", "C20-R5|log.SetPkgLevels")
+mut("C12", "r7-updateapikeys-leaks-lock", "api/authentication.go",
+    "\tapiKeysLock.Lock()\n\tdefer apiKeysLock.Unlock()\n\n\tlog.Debug(\"api: importing", "\tapiKeysLock.Lock()\n\n\tlog.Debug(\"api: importing", "C12-R7|api.updateAPIKeys")
+mut("C02", "r9-hashmap-put-leaks-lock", "database/storage/hashmap/map.go",
+    "\thm.dbLock.Lock()\n\tdefer hm.dbLock.Unlock()\n\n\thm.db[r.DatabaseKey()] = r\n\treturn r, nil", "\thm.dbLock.Lock()\n\n\thm.db[r.DatabaseKey()] = r\n\treturn r, nil", "C02-R9|database/storage/hashmap.(*HashMap).Put")
